@@ -210,6 +210,41 @@ fn run(ctx: &mut Ctx) {
         });
         ctx.require("runs for which alpha-g-vertices wrote one row per main event", 10);
     }
+    // ---- a clean avalanche at every edge of the detector: pad rows 0, 1, 574, 575 (and a few inside) x every pad column,
+    // with the coincident pulse on a wire of that column, so that matching looks at the neighbours of the edge rows
+    ctx.cases("edge-rows", 32, |ctx, col, rng| {
+        let col = col as usize;
+        for row in [0usize, 1, 2, 287, 288, 573, 574, 575] {
+            for width in [1usize, 2, 3] {
+                let w = (col * 8 + rng.usize(8) + 256 - 4) % 256; // a wire in front of this pad column
+                let w = if crate::evgen::wire_to_column(w) == col { w } else { (0..256).find(|x| crate::evgen::wire_to_column(*x) == col).unwrap() };
+                let k = 120 + rng.usize(100);
+                let mut ws = vec![3000i16; 400];
+                for (j, r) in m.wr.iter().enumerate() {
+                    if k + j < 400 {
+                        ws[k + j] = (3000.0 + 150.0 * r).round() as i16;
+                    }
+                }
+                let mut pm = BTreeMap::new();
+                for d in 0..width {
+                    let rr = if row >= 573 { row.saturating_sub(d) } else { row + d };
+                    let wgt = [1.0, 0.6, 0.3][d];
+                    let mut ps = vec![1725i16; 400];
+                    for (j, r) in m.pr.iter().enumerate() {
+                        if k + j < 400 {
+                            ps[k + j] = (1725.0 + 700.0 * wgt * r).round() as i16;
+                        }
+                    }
+                    pm.insert((col, rr), ps);
+                }
+                let mut banks = vec![event::wire_bank(&inv, w, ws)];
+                banks.extend(event::pad_banks(&inv, &pm, 1400));
+                banks.push(event::trg_bank(9));
+                exercise(ctx, u32::MAX, &banks, "avalanche at an edge pad row");
+            }
+        }
+    });
+    ctx.require("avalanche at an edge pad row: built", 100);
     // ---- (ii)+(iii) forward-model events, plain and with extreme values
     let n = ctx.tier.pick(320, 12_000);
     ctx.cases("sim-extreme", n, |ctx, i, rng| {
